@@ -210,8 +210,8 @@ class World:
         if rng.random() < 0.08:
             # denominations spelled like vouchers of other modules; the marker table alone says what they are
             hx = "".join(rng.choice("0123456789ABCDEF") for _ in range(64))
-            shaped = [rng.choice(["ibc/" + hx, "ibc/" + hx.lower(), "ibc/" + hx[:63], "factory/alice/sub", "gamm/pool/1",
-                                  "nhash", "nhash", "hash", "uusd", "vspn", "events"])]
+            shaped = [rng.choice(["ibc/" + hx] * 4 + ["ibc/" + hx.lower(), "ibc/" + hx[:63], "factory/alice/sub", "gamm/pool/1",
+                                                    "nhash", "nhash", "nhash", "hash", "uusd", "vspn", "events"])]
             if rng.random() < 0.7:
                 quotes = quotes + shaped
             else:
@@ -743,7 +743,8 @@ class World:
              ("match", 8), ("reverse", 5), ("modify", 1.2), ("env", 0.4), ("query", 0.8)]
         kind = rng.choices([k for k, _ in w], [x for _, x in w])[0]
         if kind == "env":
-            d = rng.choice(list(self.markers.keys()) + ["base", "qa", "cva"])
+            held = [a.base for a in self.asks.values()] + [b.quote_denom for b in self.bids.values() if isinstance(b, fmt.Bid)]
+            d = rng.choice(held) if held and rng.random() < 0.5 else rng.choice(list(self.markers.keys()) + ["base", "qa", "cva"])
             m = rng.choice(["R", "U", None, "Ra", "Rc", "Rp", "Ua", "E", "Rx", "Rx", "Z", "T"])
             if m:
                 self.markers[d] = m
